@@ -13,7 +13,7 @@ RULE = ("(a) a clean chart (every body line parsable) and the same chart with 1-
         "independence). Non-trivial: >= 1 inserted line after a parsed line, or a non-canonical kind order; distinct by input")
 ASSUMPTIONS = ["inserted lines are unparsable for the section they are inserted into (checked against the reference recognisers by the generator's construction and by the model)"]
 
-C_IN = "((parse_out * list str) * %s)" % PARSE_IN
+C_IN = "((parse_out * list str * Z) * %s)" % PARSE_IN
 C_VERDICT = "fun i o => parse_verdict cfg (snd i) o"
 C_SPEC = "fun i o => C14_spec (fst i) o"
 
@@ -44,6 +44,11 @@ def chart_case(rng):
     body2 = ig.section_lines(rng, groups2, R, junk=False)
     sync = ["0 = TS 4", "0 = B 120000", "400 = B 90000", "400 = TS 3 3", "10 = A 1000"]
     events = ['0 = E "section a"', '10 = E "lyric b"', '20 = E "c"', '30 = E "lyric d"']
+    if rng.random() < 0.5:
+        # equal neighbours: several lines of ONE kind on one tick are several events
+        sync += ["400 = TS 6 3", "10 = A 1001"]
+        events += ['30 = E "lyric e"', '30 = E "lyric d"', '30 = E "c"', '30 = E "c2"', '30 = E "section s"', '30 = E "section s"']
+        body1 = body1 + ["%d = E solo" % groups[-1]["tick"], "%d = E soloend" % groups[-1]["tick"], "%d = S 2 5" % groups[-1]["tick"], "%d = S 2 7" % groups[-1]["tick"]]
     tracks = [("ExpertSingle", body1)] + ([("HardDrums", body2)] if rng.random() < 0.6 else [])
     base = chart_text(res=R, sync=sync, events=events, tracks=tracks)
     ch0, exc0, out0 = parse_case(base)
@@ -89,8 +94,11 @@ def chart_case(rng):
         exp += in_order(nb, js)
     exp = ["  " + l for l in exp]
     n_junk = len(exp)
-    return dict(case=dict(kind="chart", base=base, text=text, expected=exp),
-                in_term="((%s, %s), %s)" % (out0, coq_list(coq_str(l) for l in exp), parse_in_term(text)), out_term=out,
+    def n_events(body):
+        return len({l.split(" = ")[0] for l in body if " = N " in l}) + sum(1 for l in body if " = S " in l or " = E " in l)
+    n_ev = len(sync) + len(events) + sum(n_events(b) for _, b in tracks)
+    return dict(case=dict(kind="chart", base=base, text=text, expected=exp, n_events=n_ev),
+                in_term="((%s, %s, %s), %s)" % (out0, coq_list(coq_str(l) for l in exp), coq_Z(n_ev), parse_in_term(text)), out_term=out,
                 nontrivial=n_junk >= 1, tags=["chart", "junk=%d" % min(n_junk, 6), "impl_error" if exc is not None else "impl_ok"],
                 signature="C14c:" + key_of(text))
 
@@ -98,7 +106,13 @@ def chart_case(rng):
 def remake_chart(c):
     ch0, exc0, out0 = parse_case(c["base"])
     ch, exc, out = parse_case(c["text"])
-    return dict(case=c, in_term="((%s, %s), %s)" % (out0, coq_list(coq_str(l) for l in c["expected"]), parse_in_term(c["text"])), out_term=out,
+    n_ev = c.get("n_events")
+    if n_ev is None:
+        # older corpus entries: as many events as the clean chart has now
+        n_ev = 0 if ch0 is None else (len(ch0.sync_track.time_signature_events) + len(ch0.sync_track.bpm_events.events) + len(ch0.sync_track.anchor_events)
+                                      + len(ch0.global_events_track.text_events) + len(ch0.global_events_track.section_events) + len(ch0.global_events_track.lyric_events)
+                                      + sum(len(t.note_events) + len(t.star_power_events) + len(t.track_events) for d in ch0.instrument_tracks.values() for t in d.values()))
+    return dict(case=c, in_term="((%s, %s, %s), %s)" % (out0, coq_list(coq_str(l) for l in c["expected"]), coq_Z(n_ev), parse_in_term(c["text"])), out_term=out,
                 nontrivial=True, tags=["chart", "replay"], signature="C14c:" + key_of(c["text"]))
 
 
